@@ -299,7 +299,7 @@ class RepeatUntil(Stream):
     def gen(self, rng, n):
         for _ in range(n):
             sc = sg.equalize(sg.rand_score(rng, max_chords=3, rel=0.0, accs=False))
-            yield {"score": sc, "d": rng.choice([F(1, 2), F(1), F(3), F(7, 2), F(10, 3), F(8), F(13), F(17, 4), F(0)])}
+            yield {"score": sc, "d": rng.choice([F(1, 2), F(1), F(3), F(7, 2), F(10, 3), F(8), F(13), F(17, 4), F(0), F(5007, 1001), F(12345, 2048)])}   # also targets finer than the 1/1000 resolution of note durations
 
     def impl(self, case):
         def f():
